@@ -405,6 +405,13 @@ def nf(e):
             return f'pow({args[0]},0.5)'
         if fn == 'square' and len(args) == 1:
             return f'pow({args[0]},2)'
+        # np.array(X).astype(T) builds the same new array as np.array(X, dtype=T)
+        if isinstance(e.func, ast.Attribute) and e.func.attr == 'astype' and len(e.args) == 1 and not e.keywords \
+                and isinstance(e.func.value, ast.Call) and _fname(e.func.value.func) in ('array',) \
+                and not any(k.arg == 'dtype' for k in e.func.value.keywords) and len(e.func.value.args) == 1:
+            inner_ = e.func.value
+            kws_ = sorted([(k.arg or '**') + '=' + nf(k.value) for k in inner_.keywords] + ['dtype=' + nf(e.args[0])])
+            return 'array(' + ','.join([nf(a) for a in inner_.args] + kws_) + ')'
         kws = sorted((k.arg or '**') + '=' + nf(k.value) for k in e.keywords)
         return fn + '(' + ','.join(args + kws) + ')'
     if isinstance(e, ast.Subscript):
